@@ -83,7 +83,17 @@ func main() {
 			os.Exit(3)
 		}
 		env := &fw.Env{Tier: rep.Tier, Seed: rep.Seed, Race: raceEnabled, Replay: true}
-		r := fw.RunOne(p, rep.Case, env)
+		// goroutine timing is not controlled: a replay re-runs the case, up to 25 times, until it violates
+		var r fw.Result
+		attempts := 0
+		for attempts < 25 {
+			attempts++
+			r = fw.RunOne(p, rep.Case, env)
+			if r.Verdict == fw.Violated || len(r.More) > 0 {
+				break
+			}
+		}
+		fmt.Printf("replay attempts: %d\n", attempts)
 		out, _ := json.MarshalIndent(r, "", " ")
 		fmt.Println(string(out))
 		if r.Verdict == fw.Violated || len(r.More) > 0 {
